@@ -20,6 +20,7 @@ class Elem (K : Type) where
   abs  : K → K        -- np.abs
   atan : K → K        -- np.arctan
   acos : K → K        -- np.arccos
+  pi   : K            -- np.pi
 
 instance : NatCast Float := ⟨Float.ofNat⟩
 
@@ -34,6 +35,7 @@ instance : Elem Float where
   abs := Float.abs
   atan := Float.atan
   acos := Float.acos
+  pi := 3.141592653589793
 
 section
 variable {K : Type} [Div K] [NatCast K]
